@@ -444,6 +444,39 @@ func (c *Ctx) ruleLockOrder(rr *RuleRep) {
 			}
 		}
 	}
+	// edges through calls: held at the call site -> acquired inside the callee
+	sum := la.acqSummary()
+	for _, f := range c.Funcs {
+		eachInstr(f, func(in ssa.Instruction) {
+			cc := callCommon(in)
+			if cc == nil {
+				return
+			}
+			if _, isGo := in.(*ssa.Go); isGo {
+				return
+			}
+			g := c.StaticCalleeOf(cc)
+			if g == nil || g.Pkg != c.Pkg {
+				return
+			}
+			for h := range la.at[in] {
+				for id := range sum[g] {
+					if id == h {
+						continue
+					}
+					if edges[h] == nil {
+						edges[h] = map[lockID]ssa.Instruction{}
+					}
+					if _, ok := edges[h][id]; !ok {
+						edges[h][id] = in
+					}
+				}
+			}
+		})
+	}
+	for _, ra := range la.reacquisitions() {
+		rr.Bad(FuncName(ra.Site.Parent())+"/self-deadlock", ra.Site.Pos(), "%s is held (mode %c) across the call of %s, which acquires it again (mode %c)", ra.ID, ra.Held, FuncName(ra.Callee), ra.Want)
+	}
 	// cycle detection
 	var order []lockID
 	for k := range edges {
@@ -507,7 +540,79 @@ func (c *Ctx) ruleSelfDeadlock(rr *RuleRep) {
 			rr.Bad(FuncName(ev.In.Parent())+"/self-deadlock", ev.In.Pos(), "%s is acquired (mode %c) while it is already held (mode %c) on this path, possibly through a caller: Go mutexes are not reentrant, the goroutine blocks for ever", ev.ID, ev.Mode, hm)
 		}
 	}
-	if !bad {
-		rr.OK("self-deadlock", token.NoPos, "none of the %d lock acquisitions happens with the same lock already held", len(la.acquires))
+	for _, ra := range la.reacquisitions() {
+		bad = true
+		rr.Bad(FuncName(ra.Site.Parent())+"/self-deadlock", ra.Site.Pos(), "%s calls %s while holding %s (mode %c), and %s acquires that mutex again (mode %c): Go mutexes are not reentrant — a write lock blocks for ever, a read lock blocks as soon as a writer is waiting", FuncName(ra.Site.Parent()), FuncName(ra.Callee), ra.ID, ra.Held, FuncName(ra.Callee), ra.Want)
 	}
+	if !bad {
+		rr.OK("self-deadlock", token.NoPos, "none of the %d lock acquisitions (nor any call made under a lock) re-acquires a lock already held", len(la.acquires))
+	}
+}
+
+// acqSummary: the locks function g may acquire, directly or through its static callees (with mode).
+func (la *lockAnalysis) acqSummary() map[*ssa.Function]map[lockID]byte {
+	c := la.c
+	sum := map[*ssa.Function]map[lockID]byte{}
+	for _, f := range c.Funcs {
+		sum[f] = map[lockID]byte{}
+	}
+	for _, ev := range la.acquires {
+		f := ev.In.Parent()
+		if m, ok := sum[f][ev.ID]; !ok || (m == 'r' && ev.Mode == 'w') {
+			sum[f][ev.ID] = ev.Mode
+		}
+	}
+	for changed := true; changed; {
+		changed = false
+		for _, f := range c.Funcs {
+			for _, g := range c.calleesOf(f, false) {
+				for id, m := range sum[g] {
+					if om, ok := sum[f][id]; !ok || (om == 'r' && m == 'w') {
+						sum[f][id] = m
+						changed = true
+					}
+				}
+			}
+		}
+	}
+	return sum
+}
+
+// mayDeadlocks: call sites at which the caller holds a lock that the callee (transitively) acquires again.
+type reacquire struct {
+	Site   ssa.Instruction
+	Callee *ssa.Function
+	ID     lockID
+	Held   byte
+	Want   byte
+}
+
+func (la *lockAnalysis) reacquisitions() []reacquire {
+	c := la.c
+	sum := la.acqSummary()
+	var out []reacquire
+	for _, f := range c.Funcs {
+		eachInstr(f, func(in ssa.Instruction) {
+			cc := callCommon(in)
+			if cc == nil {
+				return
+			}
+			if _, isGo := in.(*ssa.Go); isGo {
+				return
+			}
+			if _, isDefer := in.(*ssa.Defer); isDefer {
+				return
+			}
+			g := c.StaticCalleeOf(cc)
+			if g == nil || g.Pkg != c.Pkg {
+				return
+			}
+			for id, hm := range la.at[in] {
+				if wm, ok := sum[g][id]; ok {
+					out = append(out, reacquire{in, g, id, hm, wm})
+				}
+			}
+		})
+	}
+	return out
 }
